@@ -10,11 +10,27 @@ AREA = 'ser'
 # ---------------------------------------------------------------------------
 # configurations on the wire: (inverted from-mode cap validate (sizes))
 
-def cfg_today(sizes):
+def cfg_pinned(sizes):
+    """the code as pinned: inverted scope flags, no capacity cap, no validation"""
     return [1, 0, -1, 0, sizes]
 
 def cfg_fixed(sizes):
+    """all four candidate repairs (notes/C12_*.patch, notes/C14_*.patch)"""
     return [0, 1, 1024, 1, sizes]
+
+def cfg_today(sizes):
+    """the model of the tree being checked: the pinned code, with the switch of
+    each repair flipped once its finding is marked `fixed' in known_findings
+    (the name table always comes from the tree: from-mode 0)"""
+    import vlib
+    status = {}
+    for prop in ('C12', 'C14'):
+        for k in vlib.load_known(prop):
+            status[k.get('class')] = k.get('status', 'open')
+    fixed = lambda cls: status.get(cls) == 'fixed'
+    return [0 if fixed('scope_flag_inverted') else 1, 0,
+            1024 if fixed('alloc_untrusted_len') else -1,
+            1 if fixed('loaded_not_wf') else 0, sizes]
 
 def regenerate_names(c):
     """re-extract the BuiltInFunction name tables from the tree being checked"""
